@@ -560,6 +560,9 @@ static void cc1(void) {
     return;
   }
 
+  // Adjacent string literals are concatenated (translation phase 6) only
+  // for the parser; -E above prints the tokens of phase 4.
+  join_adjacent_string_literals(tok);
   Obj *prog = parse(tok);
 
   // Open a temporary output buffer.
